@@ -25,7 +25,7 @@
  *   1 "siblings"  <N0 A0>T<N1 A1>T</N1>T<N2 A2>T</N2>T</N0>
  *   2 "nested"    <N0 A0>T<N1 A1>T<N2 A2>T</N2>T</N1>T</N0>
  *   3 "attrlimit" <N0>T<N1 k=fv ... (9, 10 or 11 attributes)>T</N1>T</N0>
- *   4 "preamble"  P P w <N0 A0>T</N0>      P = nothing | <?p?> | <?p> | <!p> ; w = nothing | one byte that is not '<'
+ *   4 "preamble"  P P w <N0 A0>T</N0>      P = nothing | <?p?> | <?p> | <!p> (p: one byte, not '<' or '>'); w = nothing | one byte that is not '<'
  *   5 "attrs"     <N0 A A A>T</N0>         0..3 attributes, each quoted or not
  * Ni in {a, ab, b}; T = 0 or 1 text byte; A = nothing | " k=fv" | " k=\"f\"" (k, f symbolic bytes; an unquoted value ends
  * in the fixed letter v because the parser branches on the last byte of a start tag: '/' would make it self-closing).
@@ -220,10 +220,10 @@ static void put_close(int i) {
 static void put_preamble_statement(int kind) {
     if (kind == 0) return;
     uint8_t p = nondet_u8();
-    __CPROVER_assume(p != '>');
+    __CPROVER_assume(p != '>' && p != '<');
     put('<');
     put(kind == 3 ? '!' : '?');
-    put_free(p, EX(CH_GT));
+    put_free(p, EX(CH_GT) | EX(CH_LT));
     if (kind == 1) put('?');
     put('>');
 }
